@@ -107,9 +107,16 @@ impl FileAppenderBuilder {
         Ok(FileAppender {
             path,
             file: Mutex::new(SimpleWriter(BufWriter::with_capacity(1024, file))),
+            #[cfg(not(log4rs_verif))]
             encoder: self
                 .encoder
                 .unwrap_or_else(|| Box::<PatternEncoder>::default()),
+            // verification builds install an explicit encoder: naming the default here would
+            // make the whole pattern engine a candidate of every `dyn Encode` call and drop
+            #[cfg(log4rs_verif)]
+            encoder: self
+                .encoder
+                .expect("verification builds require an explicit encoder"),
         })
     }
 }
